@@ -260,3 +260,57 @@ def run_real(case, max_steps=12000):
       main_done=bool(sched.threads and sched.threads[0].done and MAIN not in alive),
       left=[list(b) for b in left],
   )
+
+
+# ------------------------------------------------------------------ model side
+
+def model_request(case, choices, want_enabled=True):
+  return dict(model='prefetch', prefetch=case['prefetch'], threads=case['threads'], schedule=list(choices),
+              want_enabled=want_enabled)
+
+
+def model_requests_obs(case, obs):
+  return [model_request(case, obs['choices'])]
+
+
+def model_obs(case, resps):
+  r = resps[0]
+  left = r['left']
+  others = [b for b in left if b[0] != MAIN]
+  main_idle = any(b[0] == MAIN and b[1].endswith('mnWake') for b in left)
+  if not r['enabled']:
+    outcome = 'done' if (not others and (main_idle or r['main_done'])) else 'deadlock'
+  else:
+    outcome = 'open'
+  return dict(accepted=r['accepted'], trace=r['trace'], threads=r['threads'], producers=r['producers'],
+              main_done=r['main_done'], outcome=outcome, enabled=r['enabled_trace'], nsteps=len(r['trace']),
+              left_tids=sorted(b[0] for b in left))
+
+
+def compare(obs, m):
+  if obs['outcome'] == 'schedule_rejected':
+    return f"real code rejected the schedule: {obs['err']}"
+  if not m['accepted']:
+    k = m['nsteps']
+    return (f"model rejects choice #{k} (thread {obs['choices'][k] if k < len(obs['choices']) else None}, real label "
+            f"{obs['trace'][k] if k < len(obs['trace']) else None}) taken by the real code")
+  if obs['trace'] != m['trace']:
+    for k, (a, b) in enumerate(zip(obs['trace'], m['trace'])):
+      if a != b:
+        return f'operation #{k}: real {a} vs model {b}'
+    return f"trace lengths differ: real {len(obs['trace'])} model {len(m['trace'])}"
+  for k, (a, b) in enumerate(zip(obs['enabled'], m['enabled'])):
+    if sorted(a) != sorted(b):
+      return f'enabled threads before step {k}: real {sorted(a)} vs model {sorted(b)}'
+  if obs['outcome'] in ('done', 'deadlock'):
+    if obs['threads'] != m['threads']:
+      return f"request outcomes differ: real {obs['threads']} vs model {m['threads']}"
+    if obs['producers'] != m['producers']:
+      return f"prefetch threads differ: real {obs['producers']} vs model {m['producers']}"
+    if obs['main_done'] != m['main_done']:
+      return f"server thread: real done={obs['main_done']} vs model done={m['main_done']}"
+    if sorted(b[0] for b in obs['left']) != m['left_tids']:
+      return f"threads left: real {obs['left']} vs model {m['left_tids']}"
+    if obs['outcome'] != m['outcome']:
+      return f"outcome differs: real {obs['outcome']} vs model {m['outcome']}"
+  return None
